@@ -177,9 +177,19 @@ C08_Forward == \A i \in 1..(Len(entered) - 1) :
 
 \* C08: a finalize request for a quorum needs > 2/3 precommit power for that block in the view that caused it
 C08_FinalizeNeedsQuorum == \A i \in 1..Len(finreqs) :
-   finreqs[i].f.why = "quorum" =>
-      LET v == IF finreqs[i].args \in Deltas /\ finreqs[i].view.h # 0 THEN AddDelta(finreqs[i].view, finreqs[i].args) ELSE finreqs[i].view
-      IN TRUE
+   finreqs[i].f.why = "quorum" => finreqs[i].f._pow >= Maj(NVal)
+
+\* C08: within one (height, round) the step only moves forwards
+StepRank(S) == CASE S = "AwaitingProposal" -> 1 [] S = "AwaitingPrevotes" -> 2 [] S = "PrevoteDelay" -> 3
+                 [] S = "AwaitingPrecommits" -> 4 [] S = "PrecommitDelay" -> 5 [] S = "CommitWait" -> 6
+                 [] S = "AwaitingFinalization" -> 7 [] OTHER -> 0
+C08_StepForward == [][(s # Down /\ s' # Down /\ ~s.replaying /\ ~s'.replaying /\ s.H = s'.H /\ s.R = s'.R)
+                        => StepRank(s'.S) >= StepRank(s.S)]_<<s>>
+\* C08: the position (height, round) never moves backwards while the process is up
+C08_PosForward == [][(s # Down /\ s' # Down) => (s'.H > s.H \/ (s'.H = s.H /\ s'.R >= s.R))]_<<s>>
+\* candidate state invariants evaluated by the suite monitor on the real RoundLifecycle (lib/smsuitemon.py)
+C08_FinStepHasElapsed == (Up /\ ~s.replaying /\ s.S = "AwaitingFinalization") => s.cwElapsed
+
 
 \* C12(a): a timer is armed exactly in the timed steps
 TimedStep(S) == S \in {"AwaitingProposal", "PrevoteDelay", "PrecommitDelay", "CommitWait"}
